@@ -7,6 +7,7 @@ import (
 	"hash/fnv"
 	"os"
 	"reflect"
+	"runtime"
 	"strings"
 	"sync"
 
@@ -33,6 +34,9 @@ type Run struct {
 type History struct {
 	Subject string `json:"subject"`
 	Calls   []Call `json:"calls"`
+	// Prefix (subject "pool" only): the package-level calls made just before this history in the same
+	// process — the pooled instances carry their state; a replay makes these calls first
+	Prefix []Call `json:"prefix,omitempty"`
 }
 
 func factoryByName(name string) (Factory, bool) {
@@ -143,11 +147,12 @@ func (run *Run) explain(f Factory, calls []Call, i int, used, fresh *Outcome) st
 	return ""
 }
 
-func (run *Run) report(f Factory, calls []Call, hfs []hfinding) {
+func (run *Run) report(f Factory, calls []Call, hfs []hfinding, prefix []Call) {
 	for _, hf := range hfs {
-		h := History{Subject: f.Name, Calls: calls}
+		h := History{Subject: f.Name, Calls: calls, Prefix: prefix}
 		// shrink to a pair (the call and one earlier call) when that still shows the same class
-		if hf.at >= 2 || len(calls) > hf.at+1 {
+		// (not for the pools: what they hold comes from the whole process, not from this history)
+		if f.Name != "pool" && (hf.at >= 2 || len(calls) > hf.at+1) {
 			for j := hf.at - 1; j >= 0; j-- {
 				pair := []Call{calls[j], calls[hf.at]}
 				sub, _ := run.checkHistory(f, pair)
@@ -212,12 +217,17 @@ func (run *Run) partialBox(emit func(Factory, []Call)) int {
 }
 
 // scenarioHistories are the histories the property and the design name explicitly.
-func scenarioHistories() []History {
+type scen struct {
+	Subject string `json:"subject"`
+	Calls   []Call `json:"calls"`
+}
+
+func scenarioHistories() []scen {
 	nilIn := &DSpec{K: "obj", KS: []string{"a"}, A: []DSpec{{K: "nilslice"}}}
 	srt := &OSpec{Sort: true}
 	one := hex.EncodeToString([]byte(`[1,2.5,"x"]`))
 	big := hex.EncodeToString([]byte(`[12345678901234567890123, 1]`))
-	return []History{
+	return []scen{
 		// oj.Marshal(data, wr) on the caller's Writer, then wr.JSON
 		{"oj.Writer", []Call{{Op: "JSON", Data: nilIn, Opt: srt}, {Op: "pkg.Marshal", Data: &DSpec{K: "int", I: 1}, Opt: srt}, {Op: "JSON", Data: nilIn, Opt: srt}}},
 		// pretty.Writer: Write, then Encode and Marshal
@@ -322,7 +332,16 @@ func (run *Run) RunC07() {
 		}
 		go func() {
 			defer wg.Done()
+			var recent []Call // the pool worker's last calls
 			for j := range src {
+				var prefix []Call
+				if j.f.Name == "pool" {
+					prefix = append(prefix, recent...)
+					recent = append(recent, j.calls...)
+					if len(recent) > 16 {
+						recent = append([]Call{}, recent[len(recent)-16:]...)
+					}
+				}
 				hfs, evals := run.checkHistory(j.f, j.calls)
 				distinct := int64(0)
 				seenMu.Lock()
@@ -336,7 +355,7 @@ func (run *Run) RunC07() {
 				seenMu.Unlock()
 				rep.AddEval(int64(evals), distinct)
 				if len(hfs) > 0 {
-					run.report(j.f, j.calls, hfs)
+					run.report(j.f, j.calls, hfs, prefix)
 				}
 			}
 		}()
@@ -428,9 +447,17 @@ func (run *Run) ReplayC07(path string) error {
 	if !ok {
 		return fmt.Errorf("unknown subject %q", h.Subject)
 	}
+	if f.Name == "pool" {
+		// one P, so that the pools hand back the instances the prefix calls used
+		defer runtime.GOMAXPROCS(runtime.GOMAXPROCS(1))
+		warm := f.New()
+		for i := range h.Prefix {
+			warm.Exec(&h.Prefix[i])
+		}
+	}
 	hfs, evals := run.checkHistory(f, h.Calls)
 	run.Rep.AddEval(int64(evals), int64(evals))
-	run.report(f, h.Calls, hfs)
+	run.report(f, h.Calls, hfs, h.Prefix)
 	for _, hf := range hfs {
 		fmt.Printf("replay: %s: %s\n", hf.class, hf.what)
 	}
